@@ -237,8 +237,9 @@ class RaiseSig(Exception):
 
 
 class ModuleFunc:
-    def __init__(self, node):
+    def __init__(self, node, mod=None):
         self.node = node
+        self.mod = mod          # home module (None: the interpreter's own)
 
 
 class Interp:
@@ -257,7 +258,7 @@ class Interp:
             pass
         for name, fn in mod.funcs.items():
             if '.' not in name:
-                self.globals[name] = ModuleFunc(fn)
+                self.globals[name] = ModuleFunc(fn, mod)
         for name in mod.classes:
             self.globals[name] = ('class', name)
         self.depth = 0
@@ -467,7 +468,7 @@ class Interp:
             n = 0
             while self.truth(self.eval(s.test, env), s.test):
                 n += 1
-                if n > 1000:
+                if n > getattr(self, 'max_while', 1000):
                     self.bad(s, 'while loop does not terminate under abstract evaluation')
                 try:
                     self.exec_block(s.body, env)
@@ -602,6 +603,8 @@ class Interp:
             return sorted(v.s if isinstance(v, ASet) else v, key=repr, reverse=getattr(self, 'set_order', 'asc') == 'desc')
         if isinstance(v, dict):
             return list(v.keys())
+        if type(v) is str:
+            return list(v)          # a concrete host string: its characters
         self.bad(node, f'iteration over {type(v).__name__}')
 
     def py_iter(self, v, node):
@@ -944,6 +947,9 @@ class Interp:
                     if e.attr == 'line_number':
                         return a[3] if len(a) > 3 else None
                 if base.kind == 'exc':
+                    attrs = self.exception_attrs(base.args[0], base.args[1] if len(base.args) > 1 else (), e)
+                    if attrs is not None and e.attr in attrs:
+                        return attrs[e.attr]
                     return Sym('excattr', base.args[0], e.attr)
                 return Sym('attr', base, e.attr)
             self.bad(e, 'attribute access outside the subset')
@@ -1233,6 +1239,8 @@ class Interp:
                 if self.fail_parse is not None and self.fail_parse(args[0]):
                     raise RaiseSig('BareScriptParserError', (Sym('inner-error'), args[0], Sym('inner-column')), e)
                 return Sym('parsed', args[0])
+            if fn.mod is not None and fn.mod is not self.mod and getattr(self, 'repo', None) is not None:
+                return self.sub_interp(fn.mod).call_function(fn.node, args, e, kwargs)
             return self.call_function(fn.node, args, e, kwargs)
         if isinstance(fn, tuple) and fn and fn[0] == 'class':
             obj = self.instantiate(fn[1], args, kwargs, e)
@@ -1253,6 +1261,8 @@ class Interp:
                 return Sym('external', fn[1], fn[2])        # a third-party function: opaque result
             if other is not None and fn[2] in other.funcs:
                 return self.sub_interp(other).call_function(other.funcs[fn[2]], args, e, kwargs)
+        if fn is None or isinstance(fn, (bool, int, float, str, AList, ADict)):
+            raise RaiseSig('TypeError', (f'{type(fn).__name__} object is not callable',), e)
         self.bad(e, 'call outside the interpreted subset')
 
     def class_home(self, cname):
@@ -1276,6 +1286,65 @@ class Interp:
                 ok_bases = all(b in ('object', 'NamedTuple', 'typing.NamedTuple') for b in bases)
                 return (m, node) if ok_bases else None
         return None
+
+    def exception_attrs(self, cname, args, at):
+        """attributes a repository exception class's own __init__ stores on the instance (evaluated on the raise arguments); None when the class has no __init__ here
+        or its constructor is outside the subset"""
+        cache = self.__dict__.setdefault('_exc_attrs', {})
+        key = (cname, id(args))
+        if key in cache and cache[key][0] is args:
+            return cache[key][1]
+        mods = [self.mod]
+        repo = getattr(self, 'repo', None)
+        if repo is not None:
+            for nm in ('value', 'parser', 'library', 'runtime', 'model', 'data', 'options', 'bare'):
+                try:
+                    m = repo.module(nm)
+                except Exception:
+                    continue
+                if m is not self.mod:
+                    mods.append(m)
+        out = None
+        for m in mods:
+            if cname in getattr(m, 'classes', {}):
+                init = m.funcs.get(f'{cname}.__init__')
+                if init is not None and isinstance(args, (tuple, list)):
+                    it = self if m is self.mod else self.sub_interp(m)
+                    obj = AObj(cname)
+                    prev = getattr(it, 'current_self', None)
+                    it.current_self = obj
+                    try:
+                        params = [a.arg for a in init.args.args]
+                        vals = [obj] + list(args)
+                        defaults = init.args.defaults
+                        env = {}
+                        for i, pn in enumerate(params):
+                            if i < len(vals):
+                                env[pn] = vals[i]
+                            else:
+                                di = i - (len(params) - len(defaults))
+                                if di < 0:
+                                    raise RaiseSig('TypeError', ('missing argument',), at)
+                                env[pn] = it.eval(defaults[di], {})
+                        unknown = set()
+                        for st in init.body:
+                            try:
+                                it.exec_stmt(st, env)
+                            except Unrecognised:
+                                # a statement outside the subset (typically the formatting of the message): the attributes it stores stay symbolic, the rest is kept
+                                for n in ast.walk(st):
+                                    if isinstance(n, ast.Attribute) and isinstance(n.ctx, ast.Store):
+                                        unknown.add(n.attr)
+                                    elif isinstance(n, ast.Call) and isinstance(n.func, ast.Name) and n.func.id == 'setattr':
+                                        unknown.add(None)
+                        out = None if None in unknown else {k: v for k, v in obj.attrs.items() if k not in unknown}
+                    except (Unrecognised, RaiseSig, ReturnSig):
+                        out = None
+                    finally:
+                        it.current_self = prev
+                break
+        cache[key] = (args, out)
+        return out
 
     @staticmethod
     def class_kind(node):
@@ -1361,6 +1430,8 @@ class Interp:
     def sub_interp(self, other):
         """interpreter for another repository module sharing oracles, hooks and scenario state with this one"""
         cache = self.__dict__.setdefault('_subs', {})
+        if not cache:
+            cache[self.mod.name] = self
         if other.name not in cache:
             sub = object.__new__(type(self))
             sub.__dict__ = dict(self.__dict__)
@@ -1377,7 +1448,7 @@ class Interp:
                 pass
             for name, f in other.funcs.items():
                 if '.' not in name:
-                    sub.globals[name] = ModuleFunc(f)
+                    sub.globals[name] = ModuleFunc(f, other)
             for name in other.classes:
                 sub.globals[name] = ('class', name)
             sub._lazy = {}
@@ -1597,6 +1668,8 @@ class Interp:
     def apply(self, fn, args, at, kwargs=None):
         """call an abstract function value: ModuleFunc, ('partial', fn, pre-args[, keyword items]), ('closure', Lambda, env)"""
         if isinstance(fn, ModuleFunc):
+            if fn.mod is not None and fn.mod is not self.mod and getattr(self, 'repo', None) is not None:
+                return self.sub_interp(fn.mod).call_function(fn.node, list(args), at, kwargs or None)
             return self.call_function(fn.node, list(args), at, kwargs or None)
         if isinstance(fn, tuple) and fn and fn[0] == 'partial':
             kw = dict(fn[3]) if len(fn) > 3 else {}
